@@ -5,7 +5,7 @@
    Any field, any coordinate type (scalars or structured), every n, ties allowed. *)
 From mathcomp Require Import all_ssreflect all_algebra.
 From TinyGP Require Import Base.Ops Base.LMat Model.QSMCore Model.General Model.SSKernel
-  Theory.MxRefine Theory.QSMDen Theory.QSMMatmul Theory.GeneralThy Theory.SSK Theory.SSKGeneral.
+  Theory.MxRefine Theory.QSMDen Theory.QSMMatmul Theory.GeneralThy Theory.SSK Theory.SSKGeneral Theory.SSKLaws.
 Set Implicit Arguments. Unset Strict Implicit. Unset Printing Implicit Defensive.
 Import GRing.Theory.
 Local Open Scope ring_scope.
@@ -59,3 +59,46 @@ Print Assumptions C08_diag_pointwise.
 Print Assumptions C08_general_qsm_pointwise.
 Print Assumptions C08_kernel_matmul_general.
 Print Assumptions C08_kernel_matmul_symm.
+
+(* The laws are preserved by every combinator (scaling, sum = block-diagonal state, product = Kronecker-style state with the
+   code's index map t -> (t mod m1, t div m1), coordinate wrappers): every theorem above therefore applies to every kernel
+   expression built from kernels that satisfy the laws (the built-in ones: C18). *)
+Theorem C08_laws_closed (F : fieldType) sq lt X (s : F) (k1 k2 : sskernel F X) :
+  (forall a b, sslt k2 a b = sslt k1 a b) -> ss_laws k1 -> ss_laws k2 ->
+  [/\ ss_laws (ss_scale (fops sq lt) s k1), ss_laws (ss_sum (fops sq lt) k1 k2) & ss_laws (ss_prod (fops sq lt) k1 k2)].
+Proof. by move=> same l1 l2; split; [exact: laws_scale | exact: laws_sum | exact: laws_prod]. Qed.
+Theorem C08_laws_wrap (F : fieldType) X Y (f : Y -> X) (k : sskernel F X) : ss_laws k -> ss_laws (ss_wrap f k).
+Proof. exact: laws_wrap. Qed.
+Print Assumptions C08_laws_closed.
+
+(* ---- end to end for built-in kernels (the W1/W2 join) ----
+   The state-space tables REGENERATED from kernels/quasisep.py on every run (Gen/Kernels_gen.v) form records over Coq's R
+   (as a MathComp field) that satisfy the laws (W2/QSLaws.v), the model's evaluate on them is the generated `evaluate`,
+   and therefore the symmetric quasiseparable matrix on ANY sorted real inputs (ties allowed) has exactly the documented
+   closed-form entries.  Axioms: the standard library's real-number axioms and classical epsilon (printed below). *)
+From Coq Require Import Reals.
+From TinyGP Require Import Base.RStruct Theory.RJoin Theory.SSKBuiltin.
+Theorem C08_builtin_laws scale sigma a b c d :
+  [/\ @ss_laws Rf R (k_Exp scale sigma), @ss_laws Rf R (k_Matern32 scale sigma), @ss_laws Rf R (k_Matern52 scale sigma),
+      @ss_laws Rf R (k_Cosine scale sigma) & @ss_laws Rf R (k_Celerite a b c d)].
+Proof. split; [exact: Exp_laws|exact: Matern32_laws|exact: Matern52_laws|exact: Cosine_laws|exact: Celerite_laws]. Qed.
+Theorem C08_Matern32_end_to_end scale sigma (x0 : R) (xs : seq R) : Rsorted x0 xs ->
+  forall i j : 'I_(size xs),
+  den (size xs) (to_symm_qsm rfops (k_Matern32 scale sigma) x0 xs) i j
+  = (let f := sqrt 3 / scale in let tau := Rabs (nth x0 xs i - nth x0 xs j) in
+     sigma * sigma * ((1 + f * tau) * exp (- f * tau)))%Rr.
+Proof. exact: Matern32_symm_qsm_closed_form. Qed.
+Theorem C08_Matern52_end_to_end scale sigma (x0 : R) (xs : seq R) : Rsorted x0 xs ->
+  forall i j : 'I_(size xs),
+  den (size xs) (to_symm_qsm rfops (k_Matern52 scale sigma) x0 xs) i j
+  = (let f := sqrt 5 / scale in let tau := Rabs (nth x0 xs i - nth x0 xs j) in
+     sigma * sigma * ((1 + f * tau + f * f * tau * tau / 3) * exp (- f * tau)))%Rr.
+Proof. exact: Matern52_symm_qsm_closed_form. Qed.
+Theorem C08_Exp_Cosine_end_to_end scale sigma (x0 : R) (xs : seq R) : Rsorted x0 xs ->
+  forall i j : 'I_(size xs),
+  den (size xs) (to_symm_qsm rfops (k_Exp scale sigma) x0 xs) i j
+    = (sigma * sigma * exp (- Rabs (nth x0 xs i - nth x0 xs j) / scale))%Rr /\
+  den (size xs) (to_symm_qsm rfops (k_Cosine scale sigma) x0 xs) i j
+    = (sigma * sigma * cos (2 * PI / scale * Rabs (nth x0 xs i - nth x0 xs j)))%Rr.
+Proof. by move=> srt i j; split; [exact: Exp_symm_qsm_closed_form | exact: Cosine_symm_qsm_closed_form]. Qed.
+Print Assumptions C08_Matern32_end_to_end.
